@@ -7,7 +7,7 @@ NARY = ["+", "*", "&", "|", "^"]
 SHIFT = ["<<", ">>", "a>>", "<<<", ">>>"]
 DIVS = ["udiv", "umod", "sdiv", "smod", "/", "%"]
 CMP = ["==", "<u", "<=u", "<s", "<=s"]
-FLAG2 = ["FLAG_EQ_CMP", "FLAG_EQ_AND", "FLAG_SIGN_SUB", "FLAG_ADD_CF", "FLAG_ADD_OF", "FLAG_SUB_CF", "FLAG_SUB_OF"]
+FLAG2 = ["FLAG_EQ_CMP", "FLAG_EQ_AND", "FLAG_SIGN_SUB", "FLAG_SIGN_ADD", "FLAG_ADD_CF", "FLAG_ADD_OF", "FLAG_SUB_CF", "FLAG_SUB_OF"]
 FLAG3 = ["FLAG_ADDWC_CF", "FLAG_ADDWC_OF", "FLAG_SUBWC_CF", "FLAG_SUBWC_OF", "FLAG_EQ_ADDWC", "FLAG_EQ_SUBWC",
          "FLAG_SIGN_ADDWC", "FLAG_SIGN_SUBWC"]
 CC = {"CC_U<=": 2, "CC_U>=": 1, "CC_S<": 2, "CC_S>": 3, "CC_S<=": 3, "CC_S>=": 2, "CC_U>": 2, "CC_U<": 1,
@@ -37,6 +37,12 @@ class Gen(object):
             return self.m.ExprInt(r.choice([0, 1, 2, mask, mask >> 1, (mask >> 1) + 1, w & mask, (w - 1) & mask, 0x80 & mask,
                                             0xff & mask, 3 & mask]), w)
         return self.m.ExprInt(r.getrandbits(w), w)
+
+    def edge_const(self, w, W):
+        """constants of width W at the edges of the value range of a w-bit operand extended to W bits"""
+        h = 1 << (w - 1)
+        vals = [h - 1, h, h + 1, (1 << w) - 1, 1 << w, (1 << w) + 1, -h, -h - 1, -h + 1, -1, 0, 1, -(1 << w), 2 * h - 2]
+        return self.m.ExprInt(self.rng.choice(vals) & ((1 << W) - 1), W)
 
     def leaf(self, w):
         return self.ident(w) if self.rng.random() < 0.6 else self.const(w)
@@ -104,7 +110,7 @@ class Gen(object):
         W = r.choice([x for x in [16, 32, 64] if x > w])
         x, y = self.ident(w), self.ident(w)
         X = self.ident(W)
-        cst = self.const(W)
+        cst = self.const(W) if r.random() < 0.5 else self.edge_const(w, W)
         cw = self.const(w)
         ext = (lambda e: e.zeroExtend(W)) if r.random() < 0.5 else (lambda e: e.signExtend(W))
         cmpop = r.choice(CMP)
@@ -195,3 +201,22 @@ def enumerate_small(widths=(1, 2, 3), leaves_per_width=None):
             seen.add(e)
             res.append(e)
     return res
+
+
+def enumerate_cc(width=2):
+    """every condition-code operator applied to every tuple of flag expressions over the same operand pair
+    (x, y), (x, 0) and constant flags: the forms produced by compare/test + conditional jump idioms"""
+    from miasm.expression import expression as m
+    x, y = m.ExprId("a%d" % width, width), m.ExprId("b%d" % width, width)
+    zero = m.ExprInt(0, width)
+    pool = []
+    for (p, q) in ((x, y), (x, zero), (x, x)):
+        for op in FLAG2:
+            pool.append(m.ExprOp(op, p, q))
+    pool += [m.ExprOp("FLAG_EQ", x), m.ExprOp("FLAG_EQ", x & y), m.ExprOp("FLAG_SIGN_ADD", x, y),
+             m.ExprInt(0, 1), m.ExprInt(1, 1)]
+    out = []
+    for op, n in sorted(CC.items()):
+        for args in itertools.product(pool, repeat=n):
+            out.append(m.ExprOp(op, *args))
+    return out
